@@ -405,3 +405,43 @@ def squash_merge_keeps_unrelated_pending_work():
         return _final(s)
     finally:
         s.destroy()
+
+
+def stash_apply_by_numeric_index():
+    """D89 (fixed): an agent's line in f.txt is stashed, then a person's edit of g.txt is stashed on top; a commit to another file;
+    `git stash apply 1` (git's short spelling of stash@{1}) brings the agent's line back; commit => the line was a person's: the
+    pre-hook resolved the argument with `git rev-parse 1`, which fails, so no attribution was restored."""
+    s = _mk("d89", files=2)
+    try:
+        f0 = [s.line("human") for _ in range(3)]; g0 = [s.line("human") for _ in range(3)]
+        s.human_write("f.txt", f0); s.human_write("g.txt", g0); s.commit_all("init")
+        s.ai_write("S1", "f.txt", f0 + [s.line("S1")])
+        s.g("stash", "push", "-q")
+        s.human_write("g.txt", g0 + [s.line("human")], ckpt=True)
+        s.g("stash", "push", "-q")
+        s.human_write("h.txt", [s.line("human")]); s.commit_all("unrelated")
+        s.g("stash", "apply", "-q", "1")
+        return _final(s)
+    finally:
+        s.destroy()
+
+
+def amend_that_reproduces_the_same_commit_id():
+    """D90 (fixed): an agent's lines in f.txt stay pending after `git commit -- g.txt`; `git commit --amend --no-edit` within the same
+    second (nothing changed, same dates => the amended commit has the SAME id) => the pending lines were committed as a person's later:
+    the amend handler wrote the carried-over INITIAL under the new id and then `cleaned up the old working log` - the same directory."""
+    s = _mk("d90", files=2)
+    try:
+        f0 = [s.line("human") for _ in range(3)]; g0 = [s.line("human") for _ in range(3)]
+        s.human_write("f.txt", f0); s.human_write("g.txt", g0); s.commit_all("init")
+        s.ai_write("S1", "f.txt", f0 + [s.line("S1"), s.line("S1")])
+        s.ai_write("S2", "g.txt", g0 + [s.line("S2")])
+        s.g("commit", "-q", "-m", "only g", "--", "g.txt")
+        before = s.head()
+        p = s.w.git("commit", "--amend", "--no-edit", "-q", tick=False)
+        s.log.append(["git", "commit", "--amend", "--no-edit", "(same second)", "rc=%d" % p.rc])
+        if s.head() != before:
+            return ["harness:amend-changed-the-id"], []
+        return _final(s)
+    finally:
+        s.destroy()
